@@ -233,6 +233,32 @@ def run_preset(ctx, pt):
     ctx.eq('C01/%s/length-field-beyond-one-word' % a, r, ('ok', exp))
 
 
+def pts_preset_h(tier):
+    return [(a, v, n) for a in ALGS for v in range(6) for n in (0, 3, geom(a)[0] // 8 + 1)]
+
+
+def run_preset_h(ctx, pt):
+    """non-initial states whose chaining words coincide (all equal, pairwise equal, zero, all-ones): value relations
+    between working variables that no message reaches from the standard IV"""
+    a, v, n = pt
+    B, cs = geom(a)
+    o = mk(a)
+    o.initstate()
+    nw = len(o.H)
+    mask = o.H[0].mask
+    base = [(x.ival * 5 + 3) & mask for x in o.H]
+    h0 = [[0x01020304 & mask] * nw, [0] * nw, [mask] * nw,
+          [base[i % (nw // 2 if nw % 2 == 0 else nw)] for i in range(nw)],          # H[i] == H[i + nw/2]
+          [base[0], base[0]] + base[2:], base[:-2] + [base[1], base[2]]][v]
+    for x, val in zip(o.H, h0):
+        x.ival = val
+    c0 = 3 * B
+    o.padmethod.bitcnt = c0
+    m = data('exp', n)
+    r = ctx.attempt(lambda: o.update(m, padding=True))
+    ctx.eq('C01/%s/chaining-value-with-coinciding-words' % a, r, ('ok', mdsha.md_hash(a, m, None, h0=h0, count0=c0)))
+
+
 def selftest():
     try:
         n = mdsha.selftest()
@@ -252,6 +278,8 @@ def subchecks():
         Sub('container', pts_container, run_container, engine='P',
             bound='bit length L near every boundary, container 1 byte / 1 block longer than ceil(L/8)'),
         Sub('reject', pts_reject, run_reject, engine='P', bound='bitlen = 8|M| + {1,7,8,B} for |M| in {0,1,B/8-cs/8,B/8}'),
+        Sub('preset-chaining-values', pts_preset_h, run_preset_h, engine='H',
+            bound='live object whose chaining words are preset to 6 coinciding patterns (all equal, zero, all-ones, H[i]==H[i+n/2], H[0]==H[1], tail equal to earlier words), then update(M, padding=True) with |M| in {0, 3, one block+1}'),
         Sub('preset-counters', pts_preset, run_preset, engine='H',
             bound='live object with preset chaining value and bit counter in {2^32-B, 2^32-2B, 2^32-8, 2^33, 2^40 | 2^64-B, 2^64-2B, 2^65} then update(M, padding=True), |M| in 6 classes (byte lengths: a bit length on a continued stream is not defined by the library API)'),
     ]
